@@ -18,8 +18,9 @@ INT_RINGS = [s + "_" + c for s, cs in [("i8", ["i8", "u8", "i16", "u16"]), ("u8"
 FLT_RINGS = ["f_f", "f_d", "d_d"]
 BAL_RINGS = ["bi32", "bi64", "bf", "bd"]
 EXT_RINGS = ["ef", "ed"]
-BIG_RINGS = ["zz", "ru6_6", "ru6_7", "ru7_7", "ru7_8", "ru8_8", "ru8_9"]
-ALL_RINGS = INT_RINGS + FLT_RINGS + BAL_RINGS + EXT_RINGS + BIG_RINGS
+BIG_RINGS = ["zz", "ru6_6", "ru6_7", "ru7_7", "ru7_8", "ru8_8", "ru8_9", "ri7_7"]
+LOG_RINGS = ["log16"]          # prime moduli only (table of powers of a generator)
+ALL_RINGS = INT_RINGS + FLT_RINGS + BAL_RINGS + EXT_RINGS + BIG_RINGS + LOG_RINGS
 
 OPS2 = ["add", "addin", "sub", "subin", "mul", "mulin"]
 OPS3 = ["axpy", "axpyin", "axmy", "axmyin", "maxpy", "maxpyin"]
@@ -28,6 +29,8 @@ UNIT1 = ["inv", "invin"]
 UNIT2 = ["div", "divin"]
 
 
+KNOWN_LOGUNIT_SITE = "Modular<Log16>::isUnit"
+KNOWN_LOGUNIT_KLASS = "unit other than 1 and -1"
 KNOWN_BALNEG_SITE = "ModularBalanced<T>::neg"
 KNOWN_BALNEG_KLASS = "even modulus, result -(p/2)"
 BAL_NEG_OPS = ("neg", "negin", "maxpy", "maxpyin")
@@ -248,6 +251,10 @@ def gen_cases(rng, ring, p, per, cases):
             if ring.startswith("ru"):
                 K = int(ring[2])
                 xs = [x for x in xs if x < (1 << (1 << K))] + [(1 << (1 << K)) - 1]
+            if ring == "ri7_7":
+                xs = [x for x in xs if x < (1 << 127)] + [(1 << 127) - 1]
+            if ring in LOG_RINGS:     # no reduce(): init(int32_t) is the reduction
+                xs = [x for x in xs if x < (1 << 31)] + [-1, -p, -p - 1, (1 << 31) - 1, -(1 << 31) + 1, rng.range(-(1 << 31) + 1, (1 << 31) - 1)]
         for x in xs:
             cases.append((ring, p, op, [x]))
     if ring in INT_RINGS:
@@ -385,6 +392,8 @@ def main(tier, replay=None):
             else:
                 ms = moduli(rng, lo, hi, 1 if quick else 40)
             per = 2 if quick else 6
+            if ring in LOG_RINGS:
+                ms = sorted({prevprime(m) for m in ms if m >= 2} | {2, 3, 5, 7, prevprime(hi)})
             for p in ms:
                 gen_cases(rng, ring, p, per, cases)
         # gcdext<Element> on its own (shared by the word rings)
@@ -434,7 +443,10 @@ def main(tier, replay=None):
             e = oracle(ring, p, op, a)
             exp = None if e is None else str(e)
             if exp is not None and got != exp:
-                if ring in BAL_RINGS and p % 2 == 0 and op in BAL_NEG_OPS and e == p // 2 and got == str(-(p // 2)):
+                if ring in LOG_RINGS and op == "isUnit" and got == "0" and a[0] % p not in (0, 1, p - 1):
+                    chk.fail_input(KNOWN_LOGUNIT_SITE, KNOWN_LOGUNIT_KLASS, case, exp, got,
+                                   "Modular<Log16>::isUnit is false for a unit other than 1 and -1")
+                elif ring in BAL_RINGS and p % 2 == 0 and op in BAL_NEG_OPS and e == p // 2 and got == str(-(p // 2)):
                     chk.fail_input(KNOWN_BALNEG_SITE, KNOWN_BALNEG_KLASS, case, exp, got,
                                    "ModularBalanced negation of p/2 for even p leaves the canonical range [-(p/2)+1, p/2]")
                 else:
